@@ -6,6 +6,6 @@ import Solvor.Flow.Theorems
 #print axioms Solvor.Flow.Inst.chkMinCost_sound
 #print axioms Solvor.Flow.Inst.chkInfeas_sound
 #print axioms Solvor.Flow.Inst.certified_verdict_unique
-#print axioms Solvor.Flow.assignment_of_flow_partial
+#print axioms Solvor.Flow.assignment_of_flow
 #print axioms Solvor.Flow.assignment_optimal_of_cert
 #print axioms Solvor.Flow.chkAssign_sound
